@@ -364,6 +364,53 @@ def suite_traces(chk):
     return traces
 
 
+def loadfile_traces():
+    """The entry points that take an open file and, optionally, a URL for it (ZConfig.loadConfigFile,
+    ZConfig.loadSchemaFile, ConfigLoader.loadFile): the file handed over is the top resource and is closed when
+    the call returns or raises - whatever the URL argument looks like."""
+    import ZConfig
+    import ZConfig.loader
+    out = []
+    root = tlc.mkscratch("zcv-lf-")
+    try:
+        cpath, spath, ipath = (os.path.join(root, n) for n in ("app.conf", "app.xml", "inc.conf"))
+        with open(spath, "w") as f:
+            f.write("<schema><key name='k'/><key name='j'/></schema>")
+        with open(ipath, "w") as f:
+            f.write("j 2\n")
+        schema = ZConfig.loadSchema(spath)
+        urls = [None, "file://" + cpath, "file://" + cpath + "#production", "http://[", "relative/name.conf",
+                "file://" + cpath + "?q=1", "package:nosuch:x.conf", ""]
+        for text in ("k 1\n", "k 1\n%include inc.conf\n", "nosuch 1\n", "<unclosed>\n"):
+            with open(cpath, "w") as f:
+                f.write(text)
+            for url in urls:
+                for entry in ("loadConfigFile", "ConfigLoader.loadFile", "loadSchemaFile"):
+                    f = open(spath if entry == "loadSchemaFile" else cpath)
+                    with obs.Observer(proxy_files=False) as o:
+                        try:
+                            if entry == "loadConfigFile":
+                                ZConfig.loadConfigFile(schema, f, url)
+                            elif entry == "ConfigLoader.loadFile":
+                                ZConfig.loader.ConfigLoader(schema).loadFile(f, url)
+                            else:
+                                u = url.replace("app.conf", "app.xml") if url else url
+                                ZConfig.loadSchemaFile(f, u)
+                            res = "returned"
+                        except Exception as e:
+                            res = type(e).__name__
+                    closed = f.closed and o.all_closed()
+                    if not f.closed:
+                        f.close()
+                    names = {}
+                    ev = [[k, names.setdefault(str(u), "u%d" % len(names))] for k, u in o.events]
+                    out.append({"events": ev or [["stream-open", "~"], ["stream-close", "~"]], "allclosed": closed,
+                                "_what": {"entry": entry, "url": url, "text": text, "result": res}})
+    finally:
+        shutil.rmtree(root, ignore_errors=True)
+    return out
+
+
 def validate_traces(chk, traces):
     d = tlc.mkscratch("zcv-rtr-")
     path = os.path.join(d, "tr.json")
@@ -485,7 +532,9 @@ def run(chk):
         st = schema_traces(rng, 0)
         chk.note("schema_load_traces", len(st))
         chk.note("schema_load_results", sorted({t["_what"]["result"] for t in st}))
-        validate_traces(chk, traces + st + suite_traces(chk))
+        lf = loadfile_traces()
+        chk.note("loadfile_traces", {"n": len(lf), "results": sorted({t["_what"]["result"] for t in lf})})
+        validate_traces(chk, traces + st + lf + suite_traces(chk))
         k = next(i for i, o in enumerate(outs) if o["o"]["r"] == "err" and o["o"]["kind"] == "fault")
         chk.sample({"files": sc.items[k]["files"], "fault": sc.items[k]["meta"].get("fault"), "spec_events": outs[k]["ev"]})
         chk.sample({"schema_load_trace": st[3]["events"], "what": st[3]["_what"]})
